@@ -6,15 +6,24 @@
 //! locks expire), fresh receipts, rewinds, proposals of every kind (`propose_transfer` with single /
 //! multi-output change strategies, `propose_standard_transfer_to_address`,
 //! `propose_send_max_transfer`) under generated confirmation policies, spend policies, locked-input
-//! policies and lock requests, `unlock_proposal_inputs`, `clear_locked_outputs`.
+//! policies and lock requests, `unlock_proposal_inputs`, `clear_locked_outputs`, and execution of earlier
+//! Sapling-only proposals with the mock provers (`create_proposed_transactions` ->
+//! `store_transactions_to_be_sent`), which leaves a pending, never-mined spender behind.
 //!
-//! Oracle (safety direction only): every note selected by a returned proposal is a model note of the
-//! requested account, mined in a scanned block of the current branch, not spent by a mined or an
-//! unexpired un-mined transaction, deep enough for the policy (documented rule), not locked by an owner
-//! the policy does not admit, in a pool the policy permits, witnessable at the step's anchor (and the
-//! witness hashes to the model's true root there), selected once; every step balances exactly when
-//! recomputed from its parts; the lock table the wallet reports equals the model's lock table after
-//! every operation.
+//! Oracle (safety direction): every note selected by a returned proposal is a model note of the
+//! requested account, mined in a scanned block of the current branch, not spent by a mined transaction,
+//! by an unexpired orphaned transaction or by an unexpired stored (pending) transaction, deep enough for
+//! the policy (documented rule), not locked by an owner the policy does not admit, in a pool the policy
+//! permits, witnessable at the step's anchor (and the witness hashes to the model's true root there),
+//! selected once; every step balances exactly when recomputed from its parts; the payments are the
+//! requested ones; the lock table the wallet reports equals the model's lock table after every operation.
+//!
+//! Liveness is not part of the property statement; two self-evident contradictions of the wallet's own
+//! answers are nevertheless detected and listed as known findings (see `SIG_SELF_CONTRADICTION`,
+//! `SIG_HAVE_GE_NEED`): the InsufficientFunds error reporting `available >= required`, and an
+//! InsufficientFunds for a small request while the same wallet reports far more as available when asked
+//! for a larger amount. Not covered: transparent inputs / `propose_shielding` (chainsim produces no
+//! transparent outputs).
 
 use std::collections::{BTreeMap, BTreeSet};
 use std::convert::Infallible;
@@ -144,6 +153,10 @@ enum XOp {
     Receive(BlockSpec),
     /// a plain history op (rewinds, partial scans, tip updates)
     Base(Op),
+    /// a block whose transaction spends one wallet note is mined and scanned, then a reorganisation removes that
+    /// block (rewind by one + `extra`), and `n` empty blocks of the new branch are scanned: the spender is now an
+    /// un-mined transaction with unknown expiry, unexpired for 40 blocks
+    SpendThenReorg { sel: u32, pool_hint: Pool, extra: u8, n: u8 },
     Propose(ProposeSpec),
     /// `unlock_proposal_inputs` of an earlier successful proposal under the given owner
     Unlock { sel: u32, owner: u8 },
@@ -231,10 +244,11 @@ fn arb_propose() -> impl Strategy<Value = ProposeSpec> {
 
 fn arb_xop(na: u8, nf: u8, iw: bool) -> impl Strategy<Value = XOp> {
     prop_oneof![
-        11 => arb_propose().prop_map(XOp::Propose),
+        14 => arb_propose().prop_map(XOp::Propose),
         3 => prop_oneof![6 => 1u8..=12, 1 => 30u8..=45].prop_map(|n| XOp::Advance { n }),
         2 => arb_block(na, nf, iw, 2, 3).prop_map(XOp::Receive),
         1 => (0u8..6, any::<bool>()).prop_map(|(depth, reorg)| XOp::Base(Op::Truncate { depth, reorg })),
+        2 => (any::<u32>(), arb_pool(iw), 0u8..2, 1u8..4).prop_map(|(sel, pool_hint, extra, n)| XOp::SpendThenReorg { sel, pool_hint, extra, n }),
         1 => (any::<u32>(), any::<bool>(), 1u16..12).prop_map(|(which, from_end, chunk)| XOp::Base(Op::ScanGap { which, from_end, chunk })),
         2 => (any::<u32>(), 0u8..N_OWNERS).prop_map(|(sel, owner)| XOp::Unlock { sel, owner }),
         1 => (0u8..3).prop_map(|account| XOp::ClearLocks { account }),
@@ -258,10 +272,6 @@ fn arb_c08_case(max_base_ops: usize, p_long: u32) -> impl Strategy<Value = C08Ca
 
 fn owner_token(i: u8) -> LockOwner {
     LockOwner::new([i + 1; 32])
-}
-
-fn owner_index(o: &LockOwner) -> Option<u8> {
-    (0..N_OWNERS).find(|i| owner_token(*i) == *o)
 }
 
 fn model_pool(p: ShieldedPool) -> Pool {
@@ -326,6 +336,7 @@ struct Stats {
     execute_ineligible: u64,
     gaps_at_attempt: u64,
     nontrivial_attempts: u64,
+    max_reasons: u32,
     override_selected_locked: u64,
     insufficient_despite_documented: u64,
     strict_conf_latitude: u64,
@@ -790,6 +801,9 @@ fn do_propose(ctx: &Ctx, h: &mut Hist, m: &mut Model, st: &mut Stats, spec: &Pro
     let ineligible_reasons = (n_underconf > 0) as u32 + (n_locked_out > 0) as u32 + (n_spent > 0) as u32 + (n_orphan > 0) as u32 + (n_pending > 0) as u32 + (n_wallet_pending > 0) as u32 + (gaps_exist && n_live > 0) as u32;
     if n_live >= 2 && ineligible_reasons >= 1 {
         st.nontrivial_attempts += 1;
+    }
+    if n_live >= 1 {
+        st.max_reasons = st.max_reasons.max(ineligible_reasons);
     }
 
     // Resolve the request.
@@ -1423,6 +1437,25 @@ fn run_case(ctx: &Ctx, case: &C08Case) -> CaseResult {
                     return excluded(&h);
                 }
             }
+            XOp::SpendThenReorg { sel, pool_hint, extra, n } => {
+                let from = h.chain.tip_height() + 1;
+                let block = BlockSpec { txs: vec![TxSpec { items: vec![ItemSpec::Spend { sel: *sel, pool_hint: *pool_hint }] }] };
+                let r = h.apply(&Op::AddBlocks(vec![block]), &step).and_then(|_| sync(&mut h, case.full_scan, from, &step));
+                if !guard(&h, r)? {
+                    return excluded(&h);
+                }
+                let r = h.apply(&Op::Truncate { depth: 1 + *extra, reorg: true }, &step);
+                if !guard(&h, r)? {
+                    return excluded(&h);
+                }
+                let from = h.chain.tip_height() + 1;
+                let r = h.apply(&Op::AddEmpty(*n as u16), &step).and_then(|_| sync(&mut h, case.full_scan, from, &step));
+                if !guard(&h, r)? {
+                    return excluded(&h);
+                }
+                m.refresh(&h.chain);
+                compare_lock_tables(&mut h, &m, &mut st, &step)?;
+            }
             XOp::Base(op) => {
                 let r = h.apply(op, &step);
                 if !guard(&h, r)? {
@@ -1486,7 +1519,6 @@ fn run_case(ctx: &Ctx, case: &C08Case) -> CaseResult {
             }
         }
     }
-    let _ = owner_index;
     let nontrivial = st.nontrivial_attempts > 0;
     Ok(Obs::new(nontrivial)
         .label_if(st.attempts > 0, "proposal-attempted")
@@ -1505,6 +1537,8 @@ fn run_case(ctx: &Ctx, case: &C08Case) -> CaseResult {
         .label_if(st.selected_after_pending_expiry > 0, "selected-note-whose-pending-spender-expired")
         .label_if(st.execute_err > 0, "execute-failed")
         .label_if(st.gaps_at_attempt > 0, "attempt-with-unscanned-gaps")
+        .label_if(st.max_reasons >= 2, "attempt-with>=2-distinct-ineligibility-reasons")
+        .label_if(st.max_reasons >= 3, "attempt-with>=3-distinct-ineligibility-reasons")
         .label_if(st.override_selected_locked > 0, "override-policy-selected-locked-note")
         .label_if(st.err_insufficient > 0, "err-insufficient-funds")
         .label_if(st.err_inputs_locked > 0, "err-inputs-locked")
@@ -1627,7 +1661,7 @@ fn main() {
          Orchard receiver; a Sapling-pool-only transfer; amounts tiny / a percentage / total-k for fee-sized k / total+k / far above, relative to the value the model considers \
          selectable; ConfirmationsPolicy trusted 1-10, untrusted = trusted+0..10; SpendPolicy pools subset; LockedInputPolicy Exclude / \
          PreferUnlocked(owners) / PreferLocked(owners) over 3 owners; lock_inputs Some(owner, 0-39 blocks) in 60 %; the account is picked by rank \
-         of selectable value), Advance(1-12 or 30-45 empty blocks, scanned), Receive(a generated block, scanned), rewind / gap scan, unlock_proposal_inputs \
+         of selectable value), Advance(1-12 or 30-45 empty blocks, scanned), Receive(a generated block, scanned), rewind / gap scan, SpendThenReorg (a block spending a wallet note is scanned and then reorganised away), unlock_proposal_inputs \
          of an earlier proposal under any owner, clear_locked_outputs, Execute (create_proposed_transactions with the mock Sapling provers for an earlier \
          single-step Sapling-only proposal: the transaction is STORED via store_transactions_to_be_sent and never mined, so its inputs are spent by a pending \
          transaction until its expiry height). Every returned proposal is checked note by note against the model ledger and \
@@ -1676,7 +1710,7 @@ fn main() {
         },
         |_| format!("{:?}", known_have_ge_need_case()),
     );
-    ctx.run_prop_with("proposals", || arb_c08_case(12, 6), tier.pick(360, 20_000), 60, |c| run_case(&ctx, c));
+    ctx.run_prop_with("proposals", || arb_c08_case(12, 6), tier.pick(320, 20_000), 60, |c| run_case(&ctx, c));
     ctx.require_label_fraction("proposals", "proposal-ok", 0.40);
     ctx.require_label_fraction("proposals", "locked-note-exclusion-situation", 0.10);
     ctx.require_label_fraction("proposals", "under-confirmed-note", 0.20);
